@@ -375,6 +375,18 @@ fn k_try_ip() {
     assert!(IpAddr::try_from(&FieldValue::Ip6Addr(Ipv6Addr::from(b))).ok() == Some(IpAddr::V6(Ipv6Addr::from(b))));
     assert!(IpAddr::try_from(&FieldValue::DataNumber(DataNumber::U32(a))).is_err());
 }
+/// K.try.string -- C13 (MAC addresses of the common view): String::try_from accepts exactly the String and MacAddr kinds
+/// and returns their text unchanged (bounded: two fixed short texts; the dispatch is what is checked)
+#[kani::proof]
+#[kani::unwind(8)]
+fn k_try_string() {
+    assert!(String::try_from(&FieldValue::String(String::from("ab"))).ok().as_deref() == Some("ab"));
+    assert!(String::try_from(&FieldValue::MacAddr(String::from("00:1B"))).ok().as_deref() == Some("00:1B"));
+    let a: u32 = kani::any();
+    assert!(String::try_from(&FieldValue::DataNumber(DataNumber::U32(a))).is_err());
+    assert!(String::try_from(&FieldValue::Ip4Addr(Ipv4Addr::from(a))).is_err());
+    assert!(String::try_from(&FieldValue::Vec(Vec::new())).is_err());
+}
 /// C13: a decoded protocol field (FieldValue::ProtocolType) converts to its number
 #[kani::proof]
 fn k_try_protocol_u8() {
